@@ -751,7 +751,16 @@ func (d *verifGC) random(rnd *rand.Rand) {
 	blocks := []string{"10.0.1.0/30", "10.0.2.0/30", "10.0.3.0/30", "10.0.4.0/30"}[:2+rnd.Intn(3)]
 	ipOf := func(b string, i int) string { return strings.TrimSuffix(b, "0/30") + strconv.Itoa(i) }
 	pick := func(s []string) string { return s[rnd.Intn(len(s))] }
-	useVM := rnd.Intn(4) == 0
+	useVM := rnd.Intn(3) == 0
+	// regression territory of the two onBlockUpdated fixes: re-list delivery (a re-created block arrives as a
+	// plain update) and handles that are reused on another node
+	wildHandles := false
+	switch rnd.Intn(6) {
+	case 0:
+		d.step(map[string]any{"op": "options", "coalesce": true, "nostate": false})
+	case 1:
+		wildHandles = true
+	}
 	for _, n := range nodes {
 		if rnd.Intn(5) > 0 {
 			d.step(map[string]any{"op": "node_add", "n": n})
@@ -808,7 +817,7 @@ func (d *verifGC) random(rnd *rand.Rand) {
 				kind, owner, handle = "tunnel", "", "vxlan-tunnel-addr"
 			case k == 1:
 				kind, owner, handle = "other", "", "misc"
-			case k < 5 && useVM:
+			case k < 11 && useVM:
 				kind, owner = "vm", pick(vmsU)
 				handle = "k8s-pod-network.vm-" + owner
 			default:
@@ -817,7 +826,9 @@ func (d *verifGC) random(rnd *rand.Rand) {
 					handle += "-" + strconv.Itoa(rnd.Intn(2))
 				}
 			}
-			handle += "@" + n // assumption E4: a handle belongs to one node
+			if !wildHandles {
+				handle += "@" + n // a handle normally belongs to one node
+			}
 			d.step(map[string]any{"op": "assign", "b": b, "ip": ipOf(b, rnd.Intn(4)), "handle": handle, "kind": kind, "owner": owner, "node": n})
 		case c < 61:
 			b := pick(blocks)
